@@ -72,16 +72,19 @@ func rulesBedWriterLadder(c *Ctx, r *Report) {
 	rpo := rpoIndex(w)
 	calls := fmtCallsIn(w)
 	sort.SliceStable(calls, func(i, j int) bool {
-		if calls[i].call.Block() != calls[j].call.Block() {
-			return rpo[calls[i].call.Block()] < rpo[calls[j].call.Block()]
+		if calls[i].site.Block() != calls[j].site.Block() {
+			return rpo[calls[i].site.Block()] < rpo[calls[j].site.Block()]
 		}
-		return instrDominates(calls[i].call, calls[j].call)
+		if calls[i].site == calls[j].site {
+			return false // same helper call: keep the helper's own order
+		}
+		return instrDominates(calls[i].site, calls[j].site)
 	})
 	// label of each write: format with verbs replaced by field labels
 	label := func(fc *fmtCall) (string, string) {
 		var ops []string
 		for _, a := range fc.args {
-			e := s.expr(a)
+			e := fc.sy.expr(a)
 			if nm := recvFieldName(w, e); nm != "" {
 				ops = append(ops, nm)
 				continue
@@ -153,7 +156,7 @@ func rulesBedWriterLadder(c *Ctx, r *Report) {
 	for _, N := range []int64{2, 13} {
 		var enabled []string
 		for _, fc := range calls {
-			if in[fc.call.Block()][N] {
+			if in[fc.site.Block()][N] {
 				enabled = append(enabled, c.pos(fc.call.Pos()))
 			}
 		}
@@ -194,7 +197,7 @@ func rulesBedWriterLadder(c *Ctx, r *Report) {
 	for N := int64(3); N <= 12; N++ {
 		var sb strings.Builder
 		for _, fc := range calls {
-			if in[fc.call.Block()][N] {
+			if in[fc.site.Block()][N] {
 				sb.WriteString(labels[fc])
 			}
 		}
